@@ -1167,8 +1167,16 @@ pub fn roundtrip_case(proto: Proto, rng: &mut Rng) -> Vec<String> {
         let b = match proto {
             Proto::Arp => {
                 let mut b = rbytes(rng, 28, 32);
-                b[6] = 0;
-                b[7] = 1 + rng.below(2) as u8;
+                // the 16-bit operation field: mostly the two valid codes, sometimes a value that is
+                // valid in one octet only (0x0101, 0xff02, 0x0100, 0x0003 …): a decoder that looks
+                // at part of the field accepts those, and re-encoding then differs from the input
+                if rng.chance(3, 4) {
+                    b[6] = 0;
+                    b[7] = 1 + rng.below(2) as u8;
+                } else {
+                    b[6] = *rng.pick(&[0u8, 1, 2, 0x80, 0xff]);
+                    b[7] = *rng.pick(&[0u8, 1, 2, 3, 0xff]);
+                }
                 b
             }
             Proto::Dns => {
